@@ -142,8 +142,18 @@ def evalTailAbove (ins outs : List String) : Verdict :=
   | _, some s, _, _, _, _, _ => .ok s!"tailabove-start-{s}"
   | _, _, _, _, _, _, _ => .bad "tailabove fields"
 
+/-- gossip whose validation context ends while the Syncer is not (or never got) started: refused, never accepted unseen -/
+def evalStartWindow (outs : List String) : Verdict :=
+  match kv? outs "duringstart", kv? outs "start2", kv? outs "afterfailedstart" with
+  | some d, some s2, some a =>
+    if d == "accept" then .prop "c03_invalid_gossip_refused" "a forged header gossiped while Start was still running was accepted when its validation context ended" else
+    if s2 == "err" && a == "accept" then .prop "c03_invalid_gossip_refused" "after a failed Start a gossiped header was accepted without having been verified" else
+    .ok "startwindow"
+  | _, _, _ => .bad "startwindow fields"
+
 /-- heads learned while a sync is running must be synced as well -/
 def evalBurst (ins outs : List String) : Verdict :=
+  if kv? ins "kind" == some "startwindow" then evalStartWindow outs else
   if kv? ins "kind" == some "tailabove" then evalTailAbove ins outs else
   if kv? ins "kind" == some "duphead" then evalDupHead ins outs else
   if kv? ins "kind" == some "appendrace" then evalAppendRace ins outs else
